@@ -1,6 +1,10 @@
-"""C19 — timed waits respect their deadline and never damage the waiter queue.
-Ties: T1 (timed wait-list / futex / pool pop_wait skeletons), T3 (vsched traces with a virtual clock validated
-against Model.WaitList, the real pointer list compared with the model's list at every lock release)."""
+"""C19 — timed waits respect their deadline and never damage the waiter queue; blocking pool pops lose nothing and return
+in bounded time.
+Ties: T1 (timed wait-list / futex / pool pop_wait / FIFO_WAIT push skeletons), T3 under the virtual clock:
+  * cond scenarios (harness/sc_sync.c families cond, condq) validated against Model.WaitList (protocol) and Model.WLPtr
+    (pointer level: the model heap compared with the real p_head / p_tail / p_next / p_prev at every lock release);
+  * pool scenarios (harness/sc_popwait.c) validated against Model.PopWait (FIFO / RANDWS poll loops, FIFO_WAIT mutex +
+    condition variable), one trace per pool."""
 from vlib import common as C
 from vlib import t1, t3, t3_wlptr, vs
 
@@ -8,7 +12,11 @@ ASSUMPTIONS = [
     "sequentially consistent execution of the atomic primitives",
     "virtual clock: every clock read advances time by 1 us, sleeps and timed futex/cond waits block until the controller moves the clock to their deadline (a scheduling choice), so every enqueue / timeout / signal order can be produced",
     "`now >= deadline` is evaluated by the real code on the virtual clock value it read; the projection recomputes it from the logged value",
-    "blocking pool pops (pop_wait / pop_timedwait): covered by T1 skeletons and the pool scenarios of C01/C06 under the virtual clock; their Lean model is work in progress (partial)",
+    "pointer-level wait-list: a node that is enqueued is a valid object that is not queued; only a queued node that was enqueued by the timed function runs the removal code (the second is the protocol theorem timed_out_consumes_no_signal)",
+    "blocking pops: inside a critical section the plain writes to the ring are invisible to the other actors (nobody reads them without the lock); the model performs them together with the section's first atomic store (is_empty, else is_in_pool)",
+    "blocking pops: clock reads never go backwards and a nanosleep(100 ns) that starts after a read of v ends no earlier than v + 100 ns (vsched: exactly); pthread mutex / condition variable are the virtual ones of vsched (signal wakes exactly one waiter, no spurious wake-up; the model also admits spurious ones)",
+    "blocking pops: logged clock values are truncated to whole ns and deadlines pass through a timespec: the projection tolerates 2 ns when a sleep or a condition wait evidently ended; scenario budgets keep 50 ns distance from every comparison the code makes in floating point",
+    "blocking pops: pool_push_many (FIFO_WAIT broadcast) and the basic_wait scheduler loop are tied by T1 only; RANDWS push-to-head contexts are C07's",
 ]
 
 T1_FUNCS = [("cond.c", f) for f in [
@@ -19,7 +27,11 @@ T1_FUNCS = [("cond.c", f) for f in [
     ("pool/fifo.c", "pool_pop_wait"), ("pool/fifo.c", "pool_pop_timedwait"),
     ("pool/randws.c", "pool_pop_wait"), ("pool/randws.c", "pool_pop_timedwait"),
     ("pool/fifo_wait.c", "pool_pop_wait"), ("pool/fifo_wait.c", "pool_pop_timedwait"),
-    ("sched/basic_wait.c", "sched_run")]
+    ("sched/basic_wait.c", "sched_run"),
+    ("pool/fifo_wait.c", "pool_push"), ("pool/fifo.c", "pool_push_shared"), ("pool/randws.c", "pool_push_shared"),
+    ("pool/fifo.c", "pool_pop_shared"), ("pool/randws.c", "pool_pop_shared"), ("pool/fifo_wait.c", "pool_pop")]
+
+t3.Log = t3_wlptr.PathLog     # the popwait projection also reads the raw log (tags M / R / W / C)
 
 
 def scenario_params(rng):
@@ -50,6 +62,40 @@ def validate(lg, params):
     return rejects, trans, len(lines) + len(plines)
 
 
+def popwait_params(rng):
+    """<kinds> <access> <nprod> <ncons> <nunits> <ext%> <style>"""
+    r = rng.below(10)
+    ext = 20 + 15 * rng.below(5)
+    if r < 3:      # solo consumer: the tight timing monitors apply (bounded time, FIFO_WAIT wake-up)
+        return [rng.below(3), 0, 1 + rng.below(2), 1, 3 + rng.below(4), ext, 1]
+    if r < 5:      # SPSC-compatible usage
+        return [rng.below(3), 1, 1, 1, 3 + rng.below(4), ext, rng.below(2)]
+    if r < 8:      # MPMC on one pool
+        return [rng.below(3), 0, 1 + rng.below(3), 2 + rng.below(3), 4 + rng.below(6), ext, 0]
+    return [3, 0, 1 + rng.below(3), 2 + rng.below(3), 5 + rng.below(6), ext, 0]     # one pool of each kind
+
+
+def validate_popwait(lg, params):
+    rejects, trans, total = [], set(), 0
+    for pn in sorted(k for k in lg.objs if k.startswith("PW")):
+        lines = t3_wlptr.project_popwait(lg, pn)
+        total += len(lines)
+        rej, tr, drc = t3.run_driver("popwait", lines)
+        trans.update("popwait:" + x.replace("ArgoVerif.Model.PopWait.Pc.", "") for x in tr)
+        if rej or drc != 0:
+            idx = int(rej.split()[1]) if rej else 0
+            rejects.append({"model": "Model.PopWait", "object": pn, "kind": lg.objs[pn].get("kind"), "reject": rej or "driver rc=%d" % drc,
+                            "projected_context": lines[max(0, idx - 16): idx + 3]})
+    return rejects, trans, total
+
+
+def _campaign_cov(res, tag):
+    """vs.campaign overwrites its non-numeric coverage keys: keep each campaign's own copy"""
+    keys = ["programs_and_schedules", "outcomes", "model_transitions"]
+    res.cov[tag] = {k: res.cov.get(k) for k in keys}
+    return set(res.cov.get("model_transitions") or [])
+
+
 def run(res, tier, broken):
     n, tb = t1.check(T1_FUNCS, key="c19")
     res.add_cov(t1_functions=n, t1_broken=len(tb))
@@ -57,7 +103,21 @@ def run(res, tier, broken):
         broken.append({"kind": "T1-skeleton", **b})
     vs.campaign(res, broken, tier, "C19", "sc_sync", ["sc_sync.c"], scenario_params, validate,
                 sizes={"quick": (20, 3), "thorough": (200, 8), "search": (150, 6)})
+    tr1 = _campaign_cov(res, "campaign_cond")
+    vs.campaign(res, broken, tier, "C19pw", "sc_popwait", ["sc_popwait.c"], popwait_params, validate_popwait,
+                sizes={"quick": (14, 3), "thorough": (160, 8), "search": (140, 6)})
+    tr2 = _campaign_cov(res, "campaign_popwait")
+    res.cov["model_transitions"] = sorted(tr1 | tr2)
+    res.cov["model_transitions_exercised"] = len(tr1 | tr2)
+    # the removal cases the pointer-level theorem is about must all have been produced by the real code
+    want = ["wlptr:rm:head:tail", "wlptr:rm:head:nT", "wlptr:rm:head:nU", "wlptr:rm:pT:tail", "wlptr:rm:pU:tail", "wlptr:rm:pT:nT",
+            "wlptr:rm:pT:nU", "wlptr:rm:pU:nT", "wlptr:rm:pU:nU"]
+    res.add_cov(wlptr_removal_cases_seen=[w for w in want if w in tr1], wlptr_removal_cases_missing=[w for w in want if w not in tr1])
 
 
 def replay(res, path):
+    import json
+    rep = json.load(open(path))
+    if rep.get("scenario") == "sc_popwait":
+        return vs.replay("sc_popwait", ["sc_popwait.c"], path, validate_popwait)
     return vs.replay("sc_sync", ["sc_sync.c"], path, validate)
